@@ -432,6 +432,90 @@ u_invalid(uint64_t idx, void *arg)
     vh_sample("invalid", "source_get_chunk(N=0) and N=SSIZE_MAX+1 must return -EINVAL without a driver call");
 }
 
+/* ---- patience: a driver may answer "nothing moved, try again" (0, EINTR, EAGAIN) as often as it likes - tens of
+ * thousands of times in a row before it delivers, or once before every small partial transfer of a long one (more
+ * than 2^16 such answers within one call, never two in a row). Counting drivers, no memory is touched. ---- */
+static struct {
+    uint64_t moved, total, calls;
+    uint64_t idle_first; /* that many idle answers before anything moves */
+    int idle_between;    /* an idle answer before every partial transfer */
+    int toggle;
+    unsigned per;
+} pt;
+
+static ssize_t
+pt_step(size_t n)
+{
+    static const int idle[3] = { 0, -EINTR, -EAGAIN };
+    pt.calls++;
+    if (pt.calls > 2000000)
+        return -EIO; /* runaway guard */
+    if (pt.idle_first) {
+        pt.idle_first--;
+        return idle[pt.calls % 3];
+    }
+    if (pt.idle_between && (pt.toggle ^= 1))
+        return idle[pt.calls % 3];
+    uint64_t k = n < pt.per ? n : pt.per;
+    if (k > pt.total - pt.moved)
+        k = pt.total - pt.moved;
+    pt.moved += k;
+    return (ssize_t)k;
+}
+
+static ssize_t
+pt_src(void *drv, void *out, size_t n)
+{
+    (void)drv;
+    (void)out;
+    return pt_step(n);
+}
+
+static ssize_t
+pt_snk(void *drv, const void *p, size_t n)
+{
+    (void)drv;
+    (void)p;
+    return pt_step(n);
+}
+
+static void
+u_patience(uint64_t idx, void *arg)
+{
+    (void)arg;
+    unsigned char *base = vh_arena(16);
+    Source s;
+    Sink k;
+    chunk_source_init(&s, pt_src, NULL);
+    chunk_sink_init(&k, pt_snk, NULL);
+    const int dir = (int)(idx & 1), mode = (int)(idx >> 1) & 1;
+    memset(&pt, 0, sizeof pt);
+    size_t N;
+    if (mode == 0) {
+        /* a long run of idle answers, then everything in pieces of 7 */
+        pt.idle_first = 70000 + 3 * idx;
+        pt.per = 7;
+        N = 64;
+    } else {
+        /* 200000 octets in pieces of 1..3, an idle answer before each piece */
+        pt.idle_between = 1;
+        pt.per = 1 + (unsigned)(idx / 4) % 3;
+        N = 200000;
+    }
+    pt.total = N;
+    VH_CASE4(idx, dir, mode, N);
+    ssize_t rc = dir ? sink_put_chunk(&k, base, N) : source_get_chunk(&s, base, N);
+    char key[96];
+    snprintf(key, sizeof key, "api=%s driver=chunk patience=%s", dir ? "sink_put_chunk" : "source_get_chunk",
+             mode ? "idle-before-every-piece" : "long-idle-run");
+    if (rc != (ssize_t)N || pt.moved != N)
+        vh_fail("count", key, "N=%zu: rc=%zd after %" PRIu64 " driver calls, %" PRIu64 " octets moved (the driver never reported an error)", N, rc,
+                pt.calls, pt.moved);
+    (*vh_ncases)++;
+    VH_COUNT("drivers that answer 'try again' more than 2^16 times within one call");
+    vh_sig(0x17c00000ull ^ idx);
+}
+
 /* ---- every error code a driver may report: whatever is not EINTR or EAGAIN is final and comes back unchanged -
  * at the first call and after one octet was moved, through the exact and the at-most calls, both driver styles ---- */
 static void
@@ -1560,6 +1644,9 @@ harness_run(void)
         vh_unit("nothing", i, u_nothing, NULL);
     for (uint64_t i = 0; i < 2; i++)
         vh_unit("codes", i, u_codes, NULL);
+    for (uint64_t i = 0; i < 12; i++)
+        vh_unit("patience", i, u_patience, NULL);
+    vh_require("drivers that answer 'try again' more than 2^16 times within one call");
     vh_require("every errno value 1..140 as a driver's hard error");
     vh_require("nothing to move: at-most zero / auxiliary buffer without free space");
     for (uint64_t i = 0; i < NFUN * 8; i++)
